@@ -1072,4 +1072,97 @@ theorem include_cycle_spec (env : Env) (ctx : Frame)
       obtain ⟨e, he, hie⟩ := include_items_err env ctx _ ih (defs env [t]) none disc false outer pre t' ign rest' hpre ht' fs
       exact ⟨e, by simp only [he], hie⟩
 
+/-! ### import of a template that extends another one -/
+
+theorem spec_simple_steps (env : Env) (ctx : Frame) (cbs : SpecCbs) (D : Nat → List (List Item))
+    (cur : Option (Nat × Nat)) (disc ext : Bool) (outer : Nat) (items : List Item)
+    (h : items.all Item.isAssign = true) (base : List Frame) (fr : Frame) :
+    ∃ o, specItems env ctx cbs D cur disc ext outer items (base ++ [fr]) =
+      .ok (o, base ++ [assigns items fr]) := by
+  induction items generalizing fr with
+  | nil => exact ⟨[], rfl⟩
+  | cons it rest ih =>
+    simp only [List.all_cons, Bool.and_eq_true] at h
+    cases it with
+    | text s =>
+      obtain ⟨o, ho⟩ := ih h.2 fr
+      exact ⟨_, by simp only [specItems, varItem, ho, assigns]; rfl⟩
+    | setVar v s =>
+      obtain ⟨o, ho⟩ := ih h.2 ((v, .str s) :: fr)
+      exact ⟨_, by simp only [specItems, varItem, store_snoc, ho, assigns]; rfl⟩
+    | defMacro v s =>
+      obtain ⟨o, ho⟩ := ih h.2 ((v, .mac v s) :: fr)
+      exact ⟨_, by simp only [specItems, varItem, store_snoc, ho, assigns]; rfl⟩
+    | _ => simp [Item.isAssign] at h
+
+theorem splitExtends_assign_none (items : List Item) (h : items.all Item.isAssign = true) :
+    splitExtends items = none := by
+  induction items with
+  | nil => rfl
+  | cons it rest ih =>
+    simp only [List.all_cons, Bool.and_eq_true] at h
+    cases it <;> first | (simp [Item.isAssign] at h; done) | simp [splitExtends, ih h.2]
+
+theorem splitExtends_assign_some (pre post : List Item) (p : Nat) (h : pre.all Item.isAssign = true) :
+    splitExtends (pre ++ .extends true p :: post) = some (pre, p, post) := by
+  induction pre with
+  | nil => rfl
+  | cons it rest ih =>
+    simp only [List.all_cons, Bool.and_eq_true] at h
+    cases it <;> first | (simp [Item.isAssign] at h; done) | simp [splitExtends, ih h.2]
+
+/-- the spec's include of a child template `t = pre ++ [extends p] ++ post` whose statements
+    (and those of its parent) are top-level assignments: the new frame collects the child's
+    assignments in front of *and behind* the `extends` tag, then the parent's -/
+theorem spec_include_extending (env : Env) (ctx : Frame) (f : Nat) (disc : Bool) (outer : Nat)
+    (t p : Nat) (T P : Template) (pre post : List Item)
+    (hT : env[t]? = some T) (hP : env[p]? = some P) (hl : T.layout = pre ++ .extends true p :: post)
+    (hpre : pre.all Item.isAssign = true) (hpost : post.all Item.isAssign = true)
+    (hpl : P.layout.all Item.isAssign = true) (fs : List Frame)
+    (hd : outer + INCLUDE_COST + (fs.length + 1) ≤ LIMIT) :
+    ∃ o, specInclude env (specAll env ctx (f + 2)) disc false outer [t] false (fs ++ [[]]) =
+      .ok (o, fs ++ [assigns P.layout (assigns post (assigns pre []))]) := by
+  have hd' : ¬ (outer + INCLUDE_COST + (fs ++ [[]]).length > LIMIT) := by simp; omega
+  obtain ⟨o1, h1⟩ := spec_simple_steps env ctx (specAll env ctx f.succ) (defs env [t]) none disc false
+    (outer + INCLUDE_COST) pre hpre fs []
+  obtain ⟨o2, h2⟩ := spec_simple_steps env ctx (specAll env ctx f.succ) (defs env ([t] ++ [p])) none true true
+    (outer + INCLUDE_COST) post hpost fs (assigns pre [])
+  obtain ⟨o3, h3⟩ := spec_simple_steps env ctx (specAll env ctx f) (defs env ([t] ++ [p])) none disc false
+    (outer + INCLUDE_COST) P.layout hpl fs (assigns post (assigns pre []))
+  refine ⟨o1 ++ o2 ++ o3, ?_⟩
+  simp only [specInclude, hT, hd', if_false]
+  have hchain : (specAll env ctx (f + 2)).chain [t] disc (outer + INCLUDE_COST) T.layout (fs ++ [[]]) =
+      .ok (o1 ++ o2 ++ o3, fs ++ [assigns P.layout (assigns post (assigns pre []))]) := by
+    have e1 : (specAll env ctx (f + 2)).chain [t] disc (outer + INCLUDE_COST) T.layout (fs ++ [[]]) =
+        specChain env ctx (specAll env ctx (f + 1)) [t] disc (outer + INCLUDE_COST) T.layout (fs ++ [[]]) := rfl
+    have e2 : (specAll env ctx (f + 1)).chain ([t] ++ [p]) disc (outer + INCLUDE_COST) P.layout
+          (fs ++ [assigns post (assigns pre [])]) =
+        specChain env ctx (specAll env ctx f) ([t] ++ [p]) disc (outer + INCLUDE_COST) P.layout
+          (fs ++ [assigns post (assigns pre [])]) := rfl
+    rw [e1]
+    simp only [specChain, hl, splitExtends_assign_some pre post p hpre, h1, List.tail_cons,
+      List.not_mem_nil, if_false, hP, h2, e2, splitExtends_assign_none P.layout hpl, h3]
+  rw [hchain]
+  simp only [List.length_append, List.length_singleton]
+  congr 2
+  apply List.take_of_length_le; simp
+
+theorem importAs_extending_step (env : Env) (ctx : Frame) (henv : EnvOK env) (f : Nat)
+    (cur : Option Nat) (d0 e0 : Bool) (outer : Nat) (parent : Option (List Item))
+    (t p v : Nat) (T P : Template) (pre post : List Item)
+    (hT : env[t]? = some T) (hP : env[p]? = some P) (hl : T.layout = pre ++ .extends true p :: post)
+    (hpre : pre.all Item.isAssign = true) (hpost : post.all Item.isAssign = true)
+    (hpl : P.layout.all Item.isAssign = true) (rest : List Item) (st : St)
+    (hd : outer + INCLUDE_COST + (st.frames.length + 1) ≤ LIMIT) :
+    stepItems ⟨env, ctx, cur, d0, e0, outer⟩ (evalImpl env ctx (f + 2)) parent (.importAs t v :: rest) st =
+      stepItems ⟨env, ctx, cur, d0, e0, outer⟩ (evalImpl env ctx (f + 2)) parent rest
+        { st with frames := (store st.frames v
+            (Val.module (dedupKeys (assigns P.layout (assigns post (assigns pre [])))))) } := by
+  obtain ⟨o, ho⟩ := spec_include_extending env ctx f false outer t p T P pre post hT hP hl hpre hpost hpl
+    st.frames hd
+  simp only [stepItems, pushFails_false_of outer st.frames hd, Bool.false_eq_true, if_false]
+  rw [include_sim (hyp_all env ctx henv (f + 2)) henv cur false false outer [t] false
+    { st with frames := st.frames ++ [[]] }]
+  simp only [ho, liftS, topFrame_snoc, take_append_one, andThen_nil]
+
 end MJ.Blocks
